@@ -214,12 +214,18 @@ def processRunRec (run : Str × List Rec) : P GGroup := do
   let (g, ts, cs) ← scanRunRec none [] [] run.2
   pure ⟨g, keepFirstTx ts cs, cs⟩
 
+/-- `gene_feature is None and not transcript_features and not cds_features`: only features of unknown types carry
+    the tag -/
+def emptyGroup (g : GGroup) : Bool := g.gene.isNone && g.txs.isEmpty && g.cdss.isEmpty
+
+/-- the outer loop; since 48a0909 a tag carried only by features of unknown type (`exon`, …) is skipped
+    (`continue`) instead of producing a group that later fails with IndexError -/
 def processRunsRec : List (Str × List Rec) → P (List GGroup)
   | [] => pure []
   | r :: rs => do
     let g ← processRunRec r
     let gs ← processRunsRec rs
-    pure (g :: gs)
+    pure (if emptyGroup g then gs else g :: gs)
 
 /-- `_group_features_by_locus_tag` on features in the order given -/
 def groupTagOrdered (ps : List TRec) : P (List GGroup) := processRunsRec (groupRunsRec ps)
@@ -252,7 +258,8 @@ def groupOfTagGroup (rs : List Rec) (g : Group) : GGroup :=
 def groupByLocusTagViaC18 (rs : List Rec) : P (List GGroup) := do
   let fs ← toFeats 0 rs
   let gs ← liftQ (Qual.groupByLocusTag fs)
-  pure (gs.map (groupOfTagGroup rs))
+  -- the skip of 48a0909, applied to C18's groups
+  pure ((gs.map (groupOfTagGroup rs)).filter fun g => !emptyGroup g)
 
 /-! ### the three `_extract_seqfeatures_from_seqrecords` + grouping -/
 
@@ -407,12 +414,16 @@ def frameOfInt (n : Int) : P CDSFrame :=
   if n = -1 then pure .NONE else if n = 0 then pure .ZERO else if n = 1 then pure .ONE
   else if n = 2 then pure .TWO else throw (.doc .ValueError)
 
-/-- `construct_frames` -/
+/-- `construct_frames`; since 95ca288 a malformed `/codon_start` (`int()` ValueError, empty value list) is reported as
+    GenBankParserError; a well-formed integer outside 0..3 still ends in `CDSFrame(...)`'s ValueError -/
 def constructFrames (cds : Rec) (l : Loc) : P (List CDSFrame) := do
   let n ← (match qGet kCodonStart cds.quals with
     | none => pure (1 : Int)
-    | some [] => throw .indexError
-    | some (v :: _) => pyInt v)
+    | some [] => throw (.doc .Export)
+    | some (v :: _) =>
+      match pyInt v with
+      | .ok n => pure n
+      | .error _ => throw (.doc .Export))
   let f ← frameOfInt (n - 1)
   liftR (constructFramesFromLocation (.compound l) f)
 
